@@ -37,6 +37,7 @@ import (
 	"cosmossdk.io/core/appmodule"
 	"cosmossdk.io/math"
 
+	"github.com/cosmos/cosmos-sdk/crypto/keys/secp256k1"
 	sdk "github.com/cosmos/cosmos-sdk/types"
 	authtypes "github.com/cosmos/cosmos-sdk/x/auth/types"
 	govtypes "github.com/cosmos/cosmos-sdk/x/gov/types"
@@ -74,10 +75,17 @@ type World struct {
 
 	mintInitialized bool
 	halted          string
+	events          []string // all events emitted so far (type and attributes, in order), when recordEvents is set
 	focus           string // "" = all messages evenly; "dispute" = histories directed at dispute rounds, votes, execution and claims
 }
 
 const loyaPerTRB = 1_000_000
+
+// recordEvents: the World keeps every emitted event (replay driver of C01)
+var recordEvents = false
+
+// worldDeterministic: newWorld builds the application from fixed keys only (used by the replay driver of C01)
+var worldDeterministic = false
 
 func spotQuery(w *World, params string) []byte {
 	res, err := w.s.Registrykeeper.GenerateQuerydata(w.ctx, &registrytypes.QueryGenerateQuerydataRequest{Querytype: "SpotPrice", Parameters: params})
@@ -90,7 +98,11 @@ func spotQuery(w *World, params string) []byte {
 func newWorld(t *testing.T, r *rand.Rand, nVals, nPlain int) *World {
 	s := &setup.SharedSetup{}
 	s.SetupTest(t)
-	rewire(t, s)
+	if worldDeterministic {
+		c10Rewire(t, s) // fixed genesis validator and genesis account: a seed then determines the whole history
+	} else {
+		rewire(t, s)
+	}
 	w := &World{t: t, s: s, r: r, reporters: map[int]bool{}}
 	w.height = 2
 	w.now = time.Unix(1_700_000_000, 0).UTC()
@@ -131,7 +143,13 @@ func newWorld(t *testing.T, r *rand.Rand, nVals, nPlain int) *World {
 		}
 	}
 	for i := 0; i < nPlain; i++ {
-		a, _ := s.CreateFundedAccount(10_000)
+		var a sdk.AccAddress
+		if worldDeterministic {
+			a = sdk.AccAddress(secp256k1.GenPrivKeyFromSecret([]byte(fmt.Sprintf("plain account %d", i))).PubKey().Address())
+			s.MintTokens(a, math.NewInt(10_000*loyaPerTRB))
+		} else {
+			a, _ = s.CreateFundedAccount(10_000)
+		}
 		w.accts = append(w.accts, a)
 	}
 	// the dispute team address becomes an actor
@@ -257,6 +275,20 @@ func (w *World) beginBlock(gap time.Duration) opResult {
 }
 
 func (w *World) endBlock() opResult {
+	res := w.endBlock0()
+	if recordEvents {
+		for _, e := range w.ctx.EventManager().Events() {
+			line := e.Type
+			for _, a := range e.Attributes {
+				line += " " + a.Key + "=" + a.Value
+			}
+			w.events = append(w.events, line)
+		}
+	}
+	return res
+}
+
+func (w *World) endBlock0() opResult {
 	return w.blockFn("EndBlock", nil,
 		func(ctx sdk.Context) error { _, err := w.s.Stakingkeeper.EndBlocker(ctx); return err },
 		func(ctx sdk.Context) error { return oracle.EndBlocker(ctx, w.s.Oraclekeeper) },
